@@ -53,6 +53,19 @@ claimed["C17"] = dict(
    ref="DESIGN.md 5/C17, engine E3",
    technique="static ownership/alias dataflow: context-sensitive abstract interpretation over go/ssa with stdlib mutation summaries (custom analyzer)")
 
+claimed["C11"] = dict(
+   text="Static path/dataflow rules on the verifier-state update decide structural necessary conditions of the update data: every added leaf is recorded on every "
+        "path of the add loop, the previous leaf count is read before the add phase, the add lists are sorted after the last insertion, the destroyed-roots list is "
+        "computed from the pre-add state, and the delete lists come from the core run with emptied targets. The hashes and positions inside the lists are not decided.",
+   ref="DESIGN.md 5/C11, engine E2",
+   technique="static must-pass-through (dominance over loop latches), ordering and provenance rules on go/ssa; phases resolved by role (custom analyzer)")
+claimed["C07"] = dict(
+   text="Thin claim: static rules decide the clause 'every added leaf it asked to remember' at its only source (every added leaf is listed in the update data on "
+        "every path) and the wiring of the cached-proof update (each phase fed from its own UpdateData lists, positions paired with their hashes, remove before add "
+        "on the returned hashes). Positions, canonicity and retention over deletions are not decided.",
+   ref="DESIGN.md 5/C07, engine E2",
+   technique="static must-pass-through and dataflow-wiring rules on go/ssa (custom analyzer)")
+
 pending = {}  # id -> reason, for properties whose check is not built yet
 
 not_applicable = {
